@@ -251,6 +251,13 @@ BIG_ENTRIES = [
     ["big/two", AE_IFREG, 0o644, 1, 2, 1001, bytes((i * 11 + 3 * (i >> 8)) & 0xff for i in range(150000)), b"", b"", 0, []],
     ["big/three", AE_IFREG, 0o600, 1, 2, 1002, b"tail\n" * 30, b"", b"", 0, []],
 ]
+# a sparse file (GNU sparse 1.0 map in the pax writer's output: decimal text lines in front of the data) and a
+# plain entry after it
+SPARSE_ENTRIES = [
+    ["sp/holes.bin", AE_IFREG, 0o644, 1, 2, 2000, bytes((i * 13 + 5) & 0xff for i in range(40000)), b"", b"", 0,
+     [[512, 1000], [9000, 1024], [20000, 512], [30000, 7], [39000, 1000]]],
+    ["sp/after.txt", AE_IFREG, 0o600, 1, 2, 2001, b"after the sparse file\n", b"", b"", 0, []],
+]
 WRITER_SPECS = [
     ("ustar", "", "", STD_ENTRIES), ("pax", "", "", STD_ENTRIES), ("paxr", "", "", STD_ENTRIES),
     ("gnutar", "", "", STD_ENTRIES), ("v7tar", "", "", STD_ENTRIES),
@@ -265,6 +272,7 @@ WRITER_SPECS = [
     ("ustar", "lzma", "", STD_ENTRIES),
     ("ustar", "", "", BIG_ENTRIES), ("newc", "", "", BIG_ENTRIES), ("zip", "", "zip:compression=store", BIG_ENTRIES),
     ("pax", "gzip", "", BIG_ENTRIES),
+    ("pax", "", "", SPARSE_ENTRIES), ("paxr", "bzip2", "", SPARSE_ENTRIES),
 ]
 
 def writer_archives(mk_exe):
@@ -277,7 +285,7 @@ def writer_archives(mk_exe):
         v = vparse(l)
         if v[0] < -20 or v[-2] < -20:
             continue
-        res.append(("w:%s%s%s%s" % (f, "+" + flt if flt else "", "/" + opt if opt else "", "#big" if ents is BIG_ENTRIES else ""), v[-1]))
+        res.append(("w:%s%s%s%s" % (f, "+" + flt if flt else "", "/" + opt if opt else "", "#big" if ents is BIG_ENTRIES else "#sparse" if ents is SPARSE_ENTRIES else ""), v[-1]))
     return res
 
 def read_case(arc, source=(1,), rplan=(), has_skip=0, has_seek=0, faults=(), consume=(0, 4096, 0), noraw=0):
